@@ -136,7 +136,7 @@ func mvnParse(s string) (mv mvnV, canon string) {
 		if err != nil {
 			return "err"
 		}
-		mv = mvnV{true, v, v.Tree()}
+		mv = mvnV{true, v, v.TreeHex()}
 		return "ok " + hexs(mv.tree)
 	})
 	return mv, canon
